@@ -476,12 +476,18 @@ class Enumerator:
         it = st.iter
         if isinstance(it, ast.Name) and not fn.is_lambda:
             from .astutil import single_assignments
-            it = single_assignments(fn.node).get(it.id)
+            it = single_assignments(fn.node).get(it.id, it)
             if isinstance(it, (ast.Tuple, ast.List)):
                 # the elements must still mean the same when the loop runs: no name of theirs is rebound in the function
                 stored = {n.id for n in ast.walk(fn.node) if isinstance(n, ast.Name) and isinstance(n.ctx, (ast.Store, ast.Del))}
                 if {n.id for n in ast.walk(it) if isinstance(n, ast.Name)} & stored:
                     return None
+        if isinstance(it, ast.Name) and not fn.is_lambda:
+            # a module-level constant table: for mode, value, ... in _WORK_MODE_STEPS
+            b = self.prog.lookup(fn.module, it.id)
+            if b and b[0] == "const" and isinstance(b[1], (ast.Tuple, ast.List)) and not self.prog._is_global_mutated(self.prog._owner_module(fn.module, it.id), it.id) \
+                    and it.id not in {n.id for n in ast.walk(fn.node) if isinstance(n, ast.Name) and isinstance(n.ctx, (ast.Store, ast.Del))}:
+                it = b[1]
         if isinstance(it, (ast.Tuple, ast.List)) and len(it.elts) <= 8 and not any(isinstance(e, ast.Starred) for e in it.elts):
             return it
         return None
